@@ -22,6 +22,38 @@ of signers (the `tx.infos.length ≠ tx.signers.length` test of `anteHandle`); i
 removed or weakened (F-10c) this breaks. -/
 theorem C13_tie_signer_count_checked : ExoVerif.Gen.oracleSignerCountChecked = true := by decide
 
+/-- The signature loop of the oracle branch has the shape `sigLoop` transcribes: exactly one loop, over
+the `sigs` obtained from `GetSignaturesV2` (whose number is tied to the signers by
+`C13_tie_signer_count_checked`); the only ways out of its body are returns of an error; the
+VerifySignature guard stands at the top level of the body (every iteration reaches it); `next` is
+called after the loop. A `return next(…)` / `break` / `continue` inside the body (seed C10-f: only
+the first slot verified) changes a literal. -/
+theorem C13_tie_sig_loop :
+    ExoVerif.Gen.oracleSigLoopCount = 1 ∧
+    ExoVerif.Gen.oracleSigLoopHeader = "for i, sig := range sigs" ∧
+    ExoVerif.Gen.oracleSigLoopSigsSource = "sigTx.GetSignaturesV2()" ∧
+    ExoVerif.Gen.oracleSigLoopExits = ["return-error", "return-error", "return-error"] ∧
+    ExoVerif.Gen.oracleSigLoopGuardTopLevel = true ∧
+    ExoVerif.Gen.oracleSigLoopFollowedBy = "return next(ctx, tx, simulate)" := by decide
+
+/-- The size comparison of the oracle branch of ConsumeTxSizeGasDecorator, regenerated: with
+`len(ctx.TxBytes())` the model's `tx.size` and `anteutils.TxSizeLimit` the regenerated constant, the Go
+condition is true exactly when the model refuses the tx for its size — for every tx, whatever the
+number of its messages. A limit scaled by `len(tx.GetMsgs())` (seed C13-f) or any other operand makes
+the condition fail to regenerate. -/
+theorem C13_tie_size_comparison (s : State) (tx : Tx) :
+    ExoVerif.Gen.oracleTxTooLarge (tx.size : Int) ((ExoVerif.Gen.oracleTxSizeLimit : Nat) : Int) = true ↔
+      anteHandle s tx = .error "size" := by
+  rw [C13_size_error_iff]
+  unfold ExoVerif.Gen.oracleTxTooLarge ExoVerif.Gen.oracleTxSizeLimit
+  simp only [decide_eq_true_eq]
+  omega
+
+/-- … and the branch consists of that guard (returning ErrTxTooLarge) followed by `next` only. -/
+theorem C13_tie_size_branch :
+    ExoVerif.Gen.oracleTxSizeGuardCond = "len(ctx.TxBytes()) > anteutils.TxSizeLimit" ∧
+    ExoVerif.Gen.oracleTxSizeBranchTail = "return next(ctx, tx, simulate)" := by decide
+
 /-- checkTimestamp, regenerated: with the block time given in nanoseconds (`sec·10⁹ + frac`,
 `0 ≤ frac < 10⁹`) and a proposal timestamp of whole seconds (the layout has second precision), the
 Go condition `now.Add(maxFutureOffset).Before(t)` is exactly the model's `blockTime + 5 < ts` on the
